@@ -4,6 +4,7 @@ import (
 	"fmt"
 	"go/ast"
 	"go/token"
+	"go/types"
 	"strings"
 
 	"golang.org/x/tools/go/ssa"
@@ -409,6 +410,20 @@ func c12Normalise(c *Ctx, p *Prog, sgr, x11, bm *ssa.Function) {
 					}
 				}
 				return true
+			case *ssa.Call:
+				// a helper that works the code out (`btn = t.resolveSgrButtons(btn, release)`): every
+				// value it returns
+				h := x.Call.StaticCallee()
+				if h == nil || h.Pkg != p.Tcell || len(h.Blocks) == 0 || h.Signature.Results().Len() != 1 {
+					return false
+				}
+				rets := returnsOf(h)
+				for _, r := range rets {
+					if !walk(derefCell(resultOf(r, 0)), d+1) {
+						return false
+					}
+				}
+				return len(rets) > 0
 			}
 			return false
 		}
@@ -418,19 +433,43 @@ func c12Normalise(c *Ctx, p *Prog, sgr, x11, bm *ssa.Function) {
 }
 
 func c12Release(c *Ctx, p *Prog, sgr *ssa.Function) {
-	// stores to buttondn
-	var clr, set []*ssa.Store
-	for _, st := range storesTo(sgr, "tcell.tScreen", "buttondn") {
-		if v, ok := constBool(st.Val); ok {
-			if v {
-				set = append(set, st)
-			} else {
-				clr = append(clr, st)
+	// parseSgrMouse together with the helpers it is written with; conditions a helper tests on its own
+	// boolean parameters are seen as the caller's arguments (deepInstr.atoms)
+	deep := deepInstrs(p, sgr, 2, func(_ ssa.Instruction, callee *ssa.Function) bool { return callee.Name() != "buildMouseEvent" })
+	type site struct {
+		in ssa.Instruction
+		at []Atom
+	}
+	var clr, set, ors []site
+	for _, d := range deep {
+		switch x := d.in.(type) {
+		case *ssa.Store:
+			if ref, _, ok := fieldAddrRef(x.Addr); ok && ref.Owner == "tcell.tScreen" && ref.Name == "buttondn" {
+				if v, isC := constBool(x.Val); isC {
+					if v {
+						set = append(set, site{x, d.atoms()})
+					} else {
+						clr = append(clr, site{x, d.atoms()})
+					}
+				}
+			}
+		case *ssa.BinOp:
+			// |3 followed by &^ 0x40
+			if x.Op == token.OR {
+				if k, ok := constInt(x.Y); ok && k == 3 {
+					for _, r := range referrers(x) {
+						if b2, ok := r.(*ssa.BinOp); ok && b2.Op == token.AND_NOT {
+							if k2, ok := constInt(b2.Y); ok && k2 == 0x40 {
+								ors = append(ors, site{x, d.atoms()})
+							}
+						}
+					}
+				}
 			}
 		}
 	}
-	guardHas := func(in ssa.Instruction, pred func(a Atom) bool) bool {
-		for _, a := range guardsAt(in.Block()) {
+	has := func(s site, pred func(a Atom) bool) bool {
+		for _, a := range s.at {
 			if pred(a) {
 				return true
 			}
@@ -439,37 +478,23 @@ func c12Release(c *Ctx, p *Prog, sgr *ssa.Function) {
 	}
 	isRelease := func(a Atom) bool { return a.Op == "==" && a.R == "109" }
 	notRelease := func(a Atom) bool { return a.Op == "!=" && a.R == "109" }
-	okClr := len(clr) == 1 && guardHas(clr[0], isRelease)
+	okClr := len(clr) == 1 && has(clr[0], isRelease)
 	c.Check(okClr, "C12-R4", "parseSgrMouse:press-flag-cleared-on-release", p.pos(sgr.Pos()), "buttondn = false exactly under the 'm' final")
-	okSet := len(set) == 1 && guardHas(set[0], notRelease) &&
-		guardHas(set[0], func(a Atom) bool { return strings.Contains(a.L, "&32") && a.Op == "==" && a.R == "0" }) &&
-		guardHas(set[0], func(a Atom) bool { return strings.Contains(a.L, "&66") && a.Op == "!=" && a.R == "64" })
+	okSet := len(set) == 1 && has(set[0], notRelease) &&
+		has(set[0], func(a Atom) bool { return strings.Contains(a.L, "&32") && a.Op == "==" && a.R == "0" }) &&
+		has(set[0], func(a Atom) bool { return strings.Contains(a.L, "&66") && a.Op == "!=" && a.R == "64" })
 	c.Check(okSet, "C12-R4", "parseSgrMouse:press-flag-set-on-press", p.pos(sgr.Pos()), "buttondn = true only for a non-release, non-motion, non-wheel report")
-	// |3 and &^0x40 under release and under (motion ∧ !buttondn)
-	var ors []*ssa.BinOp
-	eachInstr(sgr, func(in ssa.Instruction) {
-		if bo, ok := in.(*ssa.BinOp); ok && bo.Op == token.OR {
-			if k, ok := constInt(bo.Y); ok && k == 3 {
-				// followed by &^ 0x40
-				for _, r := range referrers(bo) {
-					if b2, ok := r.(*ssa.BinOp); ok && b2.Op == token.AND_NOT {
-						if k2, ok := constInt(b2.Y); ok && k2 == 0x40 {
-							ors = append(ors, bo)
-						}
-					}
-				}
-			}
-		}
-	})
 	relOK, motOK := false, false
 	for _, o := range ors {
-		if guardHas(o, isRelease) {
+		if has(o, isRelease) {
 			relOK = true
 		}
-		if guardHas(o, func(a Atom) bool {
+		if has(o, func(a Atom) bool {
 			return strings.HasSuffix(a.L, ".buttondn") && ((a.Op == "==" && a.R == "false") || (a.Op == "!=" && a.R == "true"))
 		}) &&
-			guardHas(o, func(a Atom) bool { return strings.Contains(a.L, "&32") && a.Op == "!=" && a.R == "0" }) {
+			has(o, func(a Atom) bool {
+				return strings.Contains(a.L, "&32") && a.Op != "" && ((a.Op == "!=" && a.R == "0") || (a.Op == "==" && a.R == "32"))
+			}) {
 			motOK = true
 		}
 	}
@@ -617,18 +642,55 @@ func c12Digits(c *Ctx, p *Prog, fn *ssa.Function) {
 			}
 		}
 	})
-	// negations: UnOp SUB of the accumulator guarded by the minus flag
-	eachInstr(fn, func(in ssa.Instruction) {
-		u, ok := in.(*ssa.UnOp)
-		if !ok || u.Op != token.SUB {
-			return
+	// negations: UnOp SUB of the accumulator guarded by the minus flag — a boolean carried round the scan
+	// loop of the parser and set by the '-' case — in the parser or in a helper it hands the flag to
+	// (`val = sgrFieldValue(val, neg)`), counted once per place it is applied
+	minusFlag := func(v ssa.Value) bool {
+		phi, ok := v.(*ssa.Phi)
+		if !ok || phi.Parent() != fn {
+			return false
 		}
-		for _, g := range rawGuardsAt(u.Block()) {
-			if phi, isPhi := g.Cond.(*ssa.Phi); isPhi && g.Positive && phi.Comment == "neg" {
+		if bt, isB := phi.Type().Underlying().(*types.Basic); !isB || bt.Kind() != types.Bool {
+			return false
+		}
+		// some edge delivers `true` from the block of the '-' (45) case
+		seen := map[*ssa.Phi]bool{}
+		var fromMinus func(x *ssa.Phi) bool
+		fromMinus = func(x *ssa.Phi) bool {
+			if seen[x] {
+				return false
+			}
+			seen[x] = true
+			for i, e := range x.Edges {
+				if v, isC := constBool(e); isC && v {
+					for _, g := range rawGuardsAt(x.Block().Preds[i]) {
+						if bo, isBO := g.Cond.(*ssa.BinOp); isBO && g.Positive && bo.Op == token.EQL {
+							if k, isK := constInt(bo.Y); isK && k == '-' {
+								return true
+							}
+						}
+					}
+				}
+				if y, isPhi := e.(*ssa.Phi); isPhi && fromMinus(y) {
+					return true
+				}
+			}
+			return false
+		}
+		return fromMinus(phi)
+	}
+	for _, d := range deepInstrs(p, fn, 1, nil) {
+		u, ok := d.in.(*ssa.UnOp)
+		if !ok || u.Op != token.SUB {
+			continue
+		}
+		for _, g := range d.rawGuards() {
+			if g.Positive && minusFlag(g.Cond) {
 				negs++
+				break
 			}
 		}
-	})
+	}
 	c.Check(acc, "C12-R11", "parseSgrMouse:decimal-accumulator", p.pos(fn.Pos()), "val = val*10 + (b[i] - '0')")
 	c.Check(negs >= 2, "C12-R11", "parseSgrMouse:minus-applied-per-field", p.pos(fn.Pos()), fmt.Sprintf("%d negations, each behind the minus flag (at the field separator and at the final byte)", negs))
 }
